@@ -577,11 +577,41 @@ def rule_at_start(run):
     run.end()
 
 
+def rule_sequencing(run):
+    run.begin(
+        "C01.m",
+        "statements lowered one after the other continue where the previous one stopped: every loop of the IR generator "
+        "that lowers the elements of a statement list (`for s in <statements>: X = self.apply(s, open_blocks=Y)`) feeds the "
+        "blocks left open by one element into the next (X and Y are the same variable) - otherwise an element that ends "
+        "in another state (an awaited call argument) is overtaken by the elements after it",
+        floor=2,
+    )
+    gen = run.idx.mod(GEN)
+    n = 0
+    for q, f in gen.functions.items():
+        if not q.startswith("IrGenerator."):
+            continue
+        for loop in ast.walk(f.node):
+            if not isinstance(loop, ast.For) or not isinstance(loop.target, ast.Name):
+                continue
+            for st in loop.body:
+                if isinstance(st, ast.Assign) and len(st.targets) == 1 and isinstance(st.targets[0], ast.Name) and isinstance(st.value, ast.Call) and dotted(st.value.func) == "self.apply" and st.value.args \
+                        and dotted(st.value.args[0]) == loop.target.id:
+                    ob = [k.value for k in st.value.keywords if k.arg == "open_blocks"] + st.value.args[1:2]
+                    if not ob or not isinstance(ob[0], ast.Name):
+                        continue
+                    n += 1
+                    ok = ob[0].id == st.targets[0].id
+                    run.ob(ok, q, file=gen.rel, line=st.lineno, detail=f"fold-over-{src(loop.iter)[:30]}", expected=f"{ob[0].id} = self.apply({loop.target.id}, open_blocks={ob[0].id})",
+                           found=src(st)[:80], sample=n == 1)
+    run.end()
+
+
 def rule_if_merge(run):
     c03.rule_if_merge(run)
 
 
-RULES = [rule_transitions, rule_states, rule_edges, rule_fail_closed, rule_loop_state, rule_clock_costs, rule_if_merge, rule_straight_line, rule_with_exit, rule_return_paths, rule_empty_block, rule_call_and_await, rule_state_root, rule_not_a_return, rule_at_start]
+RULES = [rule_transitions, rule_states, rule_edges, rule_fail_closed, rule_loop_state, rule_clock_costs, rule_if_merge, rule_straight_line, rule_with_exit, rule_return_paths, rule_empty_block, rule_call_and_await, rule_state_root, rule_not_a_return, rule_at_start, rule_sequencing]
 LEVEL = "other"
 EXPLANATION = (
     "Only the structural core of the coroutine->state-machine translation is decided: transitions are front-inserted "
